@@ -21,6 +21,7 @@ type charsetModel struct {
 	sniffers map[string]*ssa.Function // key constant -> function
 	snifKeys []string
 	mapAlloc ssa.Value
+	mapGlobal *ssa.Global // set when the map lives in a package variable
 	bomFn    *ssa.Function
 	bomTable *ssa.Global
 	boms     []bomEntry
@@ -28,6 +29,18 @@ type charsetModel struct {
 	plain    *ssa.Function
 	html     *ssa.Function
 	xml      *ssa.Function
+}
+
+// isSnifferMap: v denotes the sniffer map (the MakeMap itself or a load of the
+// package variable holding it).
+func (m *charsetModel) isSnifferMap(v ssa.Value) bool {
+	if v == m.mapAlloc {
+		return true
+	}
+	if g, ok := core.LoadOfGlobal(v); ok && m.mapGlobal != nil && g == m.mapGlobal {
+		return true
+	}
+	return false
 }
 
 type bomEntry struct {
@@ -41,8 +54,10 @@ func getCharset(c *core.Ctx) *charsetModel {
 		return m
 	}
 	m := &charsetModel{sniffers: map[string]*ssa.Function{}}
-	// sniffer map: a map[string]func([]byte) string built by MapUpdates of constant keys with function values
-	for _, f := range c.SrcFuncs() {
+	// sniffer map: a map[string]func([]byte) string built by MapUpdates of constant keys with function
+	// values, either inside the walk or in the package initialiser (package-level map literal).
+	var builder *ssa.Function
+	for _, f := range c.AllModFuncs() {
 		if core.FuncPkg(f) == nil || core.FuncPkg(f).Pkg.Path() != core.PkgRoot {
 			continue
 		}
@@ -60,20 +75,45 @@ func getCharset(c *core.Ctx) *charsetModel {
 				if !ok {
 					continue
 				}
-				if m.walk != nil && m.walk != f {
-					core.Bail("two functions build a sniffer map: %s and %s", m.walk.Name(), f.Name())
+				if builder != nil && builder != f {
+					core.Bail("two functions build a sniffer map: %s and %s", builder.Name(), f.Name())
 				}
 				if m.mapAlloc != nil && m.mapAlloc != mu.Map {
 					core.Bail("two sniffer maps in %s", f.Name())
 				}
-				m.walk, m.mapAlloc = f, mu.Map
+				builder, m.mapAlloc = f, mu.Map
 				m.sniffers[k] = fn
 				m.snifKeys = append(m.snifKeys, k)
 			}
 		}
 	}
-	if m.walk == nil {
+	if builder == nil {
 		core.Bail("no sniffer map (map from type constant to charset function) found in package mimetype")
+	}
+	// where is it consulted? directly, or through the package variable it is stored in
+	if mk, ok := m.mapAlloc.(*ssa.MakeMap); ok {
+		for _, ref := range *mk.Referrers() {
+			if st, ok := ref.(*ssa.Store); ok && st.Val == ssa.Value(mk) {
+				if g, ok := st.Addr.(*ssa.Global); ok {
+					m.mapGlobal = g
+				}
+			}
+		}
+	}
+	for _, f := range c.SrcFuncs() {
+		for _, b := range f.Blocks {
+			for _, in := range b.Instrs {
+				if lk, ok := in.(*ssa.Lookup); ok && m.isSnifferMap(lk.X) {
+					if m.walk != nil && m.walk != f {
+						core.Bail("the sniffer map is consulted in two functions: %s and %s", m.walk.Name(), f.Name())
+					}
+					m.walk = f
+				}
+			}
+		}
+	}
+	if m.walk == nil {
+		core.Bail("the sniffer map is never consulted")
 	}
 	m.plain, m.html, m.xml = m.sniffers["text/plain"], m.sniffers["text/html"], m.sniffers["text/xml"]
 	// BOM lookup: module function(param []byte) string that ranges over a package-level table and calls bytes.HasPrefix(param, elem.field)
